@@ -568,6 +568,24 @@ def _case_json(case):
                 [repr(float(x)) for x in v.ravel()] if v.size <= 64 else f"array{v.shape}") for k, v in case.items()}
 
 
+def _avg_oracle(x, w):
+    """the statement about the mode average, evaluated on the real function with an independent formula:
+    mean over ALL 3N slots of a q-point (the three Γ-acoustic slots counted as zeros), weighted mean over q-points.
+    Returns None or (what, observed, expected)."""
+    from cij.core.phonon_contribution.nonshear import average_over_modes
+    x = numpy.array(x, dtype=float); w = numpy.array(w, dtype=float)
+    xx = x.copy(); xx[0, :3] = 0.0
+    exp = float(sum(w[q] * (sum(xx[q]) / xx.shape[1]) for q in range(xx.shape[0])) / sum(w))
+    try:
+        obs = float(average_over_modes(x.copy(), w))
+    except Exception as e:
+        return (f"raises: average_over_modes raised {type(e).__name__}", f"{type(e).__name__}: {e}", exp)
+    if math.isnan(exp) and math.isnan(obs): return None
+    if not abs(obs - exp) <= 1e-11 * max(abs(exp), abs(obs), 1e-300):
+        return ("value: average_over_modes differs from the weighted mean over all 3N slots with Gamma-acoustic slots zeroed", obs, exp)
+    return None
+
+
 def _avg_stream(res: Result, ctx: Ctx, n: int):
     """average_over_modes alone: the real function vs the model, including shapes [q][m] with np < 3."""
     from cij.core.phonon_contribution.nonshear import average_over_modes
@@ -580,15 +598,24 @@ def _avg_stream(res: Result, ctx: Ctx, n: int):
             x[0, :3] = numpy.nan
         w = gen_weights(rng, nq)
         xc = x.copy()
-        impls.append(float(average_over_modes(x, w)))
+        bad = _avg_oracle(x, w)
+        if bad is not None:
+            res.oracle_failures.append(OracleFailure(bad[0], {"avg": {"x": [[repr(float(v)) for v in r] for r in xc], "w": [repr(float(v)) for v in w]}},
+                                                     observed=bad[1], expected=bad[2], site="C01:avg:" + bad[0].split(":")[0]))
+        try:
+            impls.append(float(average_over_modes(x, w)))
+        except Exception as e:          # already reported by _avg_oracle; keep the stream going
+            impls.append(float("nan") if False else None)
         if not numpy.array_equal(x, xc, equal_nan=True):
             res.oracle_failures.append(OracleFailure("average_over_modes modified its argument", {"x": x.tolist()}, site="C01:avg:inplace"))
-        ops.append({"op": "c01.avg", "x": enc(x), "w": enc(w)})
+        ops.append({"op": "c01.avg", "x": enc(xc), "w": enc(w)})
     outs = ctx.driver.ask(ops)
     from harness.common import b2f
     for op, imp, out in zip(ops, impls, outs):
         res.evaluations += 1
         m = b2f(out)
+        if imp is None:
+            res.disagreements.append(Disagreement("c01.avg", op, "error", m)); continue
         if not (abs(imp - m) <= 1e-12 * max(abs(imp), abs(m), 1e-300) + 1e-300 or (math.isnan(imp) and math.isnan(m))):
             res.disagreements.append(Disagreement("c01.avg", op, imp, m))
         else:
@@ -788,6 +815,10 @@ def replay(ctx: Ctx, payload, which=WHICH, pid=PID) -> List[OracleFailure]:
     if "constant" in payload:
         return [OracleFailure(f"unit constant {n} differs from CODATA", payload, a, b)
                 for n, a, b, r in check_constants() if n == payload["constant"] and not r <= RTOL_CONST]
+    if "avg" in payload:
+        x = [[float(v) for v in r] for r in payload["avg"]["x"]]; w = [float(v) for v in payload["avg"]["w"]]
+        bad = _avg_oracle(x, w)
+        return [] if bad is None else [OracleFailure(bad[0], payload, bad[1], bad[2])]
     if "x" in payload:
         from cij.core.phonon_contribution.nonshear import average_over_modes
         x = numpy.array(payload["x"], dtype=float); xc = x.copy()
